@@ -590,4 +590,15 @@ def rule_passthrough(ctx: Ctx, rule: str = "C07.layer"):
                   f.key, f"keyword-capable parameters next to **{a.kwarg.arg}: {', '.join(own)}", own_parameters=own)
 
 
-RULES = [rule_reserved, rule_layer, rule_adapter, rule_consume, rule_raise, rule_cachekey, rule_built_per_callable, rule_passthrough]
+def rule_builtins_describe_this_event(ctx: Ctx):
+    """C07.reserved: `state`, `machine` & co. describe the event being processed: `state` switches from source to target at the
+    state write and is not re-read from the live machine afterwards; `machine` is the machine itself also for triggers bound onto
+    another object (not a weak proxy, not a copy)."""
+    from . import c02, c13
+
+    c02.rule_view(ctx, rule="C07.reserved")
+    c02.rule_order(ctx, order="C07.reserved", view="C07.reserved", internal="C07.reserved")
+    c13.rule_bind(ctx, rule="C07.reserved")
+
+
+RULES = [rule_reserved, rule_layer, rule_adapter, rule_consume, rule_raise, rule_cachekey, rule_built_per_callable, rule_passthrough, rule_builtins_describe_this_event]
